@@ -106,7 +106,9 @@ contract(C + 'ContactlessFrontend._card_connect', 'C15',
          dict(self=clf(), options=CARD, terminate=CB('lambda: nondet_bool()')),
          name='C15/_card_connect', raises=ANYERR, use=['C15/nfc.tag.emulate'],
          loops={('nfc.clf.ContactlessFrontend._card_connect', 'While', 0): LoopSpec(
-             invariant=['True'], havoc={'tag_rsp': Opt(Bytes(0, 64, mutable=True))})},
+             invariant=['True'], havoc={'tag_rsp': Opt(Bytes(0, 64, mutable=True)),
+                                 # whichever of the two the loop carries over (command or response)
+                                 'tag_cmd': Opt(Bytes(0, 64, mutable=True))})},
          **H2)
 LLCP = DictOf({'llc': Obj('models.clf_models:LlcModel', _partial=False, clf=Ref('self')),
                'role': OneOf(None, 'target', 'initiator'),
@@ -126,7 +128,9 @@ LT1 = lambda: Obj(C + 'LocalTarget', _partial=False, _brty_send='106A', _brty_re
 CONNECT_LOOPS = {
     ('nfc.clf.ContactlessFrontend._rdwr_connect', 'While', 0): LoopSpec(invariant=['True']),
     ('nfc.clf.ContactlessFrontend._card_connect', 'While', 0): LoopSpec(
-        invariant=['True'], havoc={'tag_rsp': Opt(Bytes(0, 64, mutable=True))}),
+        invariant=['True'], havoc={'tag_rsp': Opt(Bytes(0, 64, mutable=True)),
+                                 # whichever of the two the loop carries over (command or response)
+                                 'tag_cmd': Opt(Bytes(0, 64, mutable=True))}),
     ('nfc.clf.ContactlessFrontend.connect', 'While', 0): LoopSpec(
         invariant=['True'], havoc={'self.device': Opt(DEV()), 'self.target': OneOf(None, RT1(), LT1())})}
 for nm, opts in (('rdwr', {'rdwr': DictOf({'targets': Const(['106A']), 'iterations': 1, 'interval': 0,
